@@ -538,6 +538,11 @@ func (r *Reader) extractTextWithFragments(page *pages.Page) (*text.Extractor, []
 		if err != nil {
 			return nil, nil, fmt.Errorf("failed to decode content stream: %w", err)
 		}
+		// The division between streams may fall between any two tokens
+		// (ISO 32000-1, 7.8.2), so keep them separated by whitespace.
+		if len(allData) > 0 {
+			allData = append(allData, '\n')
+		}
 		allData = append(allData, data...)
 	}
 
